@@ -139,3 +139,38 @@ func TestDialer(t *testing.T) {
 		t.Fatal("completed an abandoned dial")
 	}
 }
+
+// the Read that returns the last byte also returns io.EOF; later Reads fail at once
+func TestDeliverLast(t *testing.T) {
+	rec := NewRecorder()
+	c := NewConn(rec, Options{Name: "k"})
+	type res struct {
+		b   []byte
+		err error
+	}
+	got := make(chan res, 1)
+	go func() {
+		h := make([]byte, 2)
+		if _, err := io.ReadFull(c, h); err != nil {
+			got <- res{nil, err}
+			return
+		}
+		b := make([]byte, int(h[0])<<8|int(h[1]))
+		n, err := c.Read(b)
+		got <- res{b[:n], err}
+	}()
+	if !c.DeliverLast([]byte("hello"), io.EOF, "eof", tw, "tag", 1) {
+		t.Fatal("deliver failed")
+	}
+	r := <-got
+	if string(r.b) != "hello" || r.err != io.EOF {
+		t.Fatalf("got %q, %v", r.b, r.err)
+	}
+	if n, err := c.Read(make([]byte, 4)); n != 0 || err != io.EOF {
+		t.Fatalf("later read: %d %v", n, err)
+	}
+	evs := names(rec.Events())
+	if evs[len(evs)-1] != "ReadFail" || evs[len(evs)-3] != "Deliver" {
+		t.Fatalf("%v", evs)
+	}
+}
